@@ -92,6 +92,9 @@ struct group
     bool garbage = false;                // G: ... sends garbage instead of a ServerHello and closes
     bool close_after = false;            // X: ... closes the control connection
     bool reset_after = false;            // R: ... resets the control connection (close with SO_LINGER 0: the client sees ECONNRESET)
+    bool reactive_abor = false;          // A: (on the group of an upload command) the server answers a later ABOR the way RFC 959 servers do:
+                                         //    if it has already seen the end of the data connection the transfer is complete (226) and
+                                         //    ABOR gets a single 226; otherwise the scripted ABOR group is played
     bool bad_cert = false;               // B: the TLS handshake started by T presents a certificate of an unknown CA
 };
 
@@ -106,6 +109,7 @@ inline bool parse_group(const std::string & s, group & g)
         else if (it == "X") g.close_after = true;
         else if (it == "R") { g.close_after = true; g.reset_after = true; }
         else if (it == "B") g.bad_cert = true;
+        else if (it == "A") g.reactive_abor = true;
         else if (it[0] == 'c') g.cuts = dotlist(it.substr(1));
         else if (it[0] == 'D')
         {
@@ -305,6 +309,8 @@ public:
     // model) or read everything (uploads).
     bool implicit_data = false;
     data_action last_act;
+    bool reactive_abor_armed = false;                  // the last transfer group carried the flag A
+    bool data_ended_first = false;                     // set by the transport before on_command("ABOR"): the peer saw end-of-file already
     group last_group;                                  // the group played for the last command (flags for the transport)
 
     void begin_op(const std::vector<group> & groups) { script = groups; next = 0; commands.clear(); generated.clear(); resolved.clear(); transfer_started = false; }
@@ -330,6 +336,15 @@ public:
         group g;
         if (next < script.size()) g = script[next++];
         else g.items.push_back("r" + hex("500 script exhausted\r\n").substr(1));
+        if (line == "ABOR" && reactive_abor_armed && data_ended_first)
+        {
+            // the upload had ended before ABOR arrived: completion reply of the transfer, then the single reply to ABOR
+            g.items.clear();
+            g.items.push_back("r" + hex("226 Transfer complete.\r\n").substr(1));
+            g.items.push_back("r" + hex("226 No transfer to abort.\r\n").substr(1));
+        }
+        if (line != "ABOR") reactive_abor_armed = g.reactive_abor;
+        data_ended_first = false;
         last_group = g;
         std::string bytes, res;
         for (const std::string & it : g.items)
